@@ -62,7 +62,9 @@ def fix_guards(ctx, rule='A16'):
 
 
 def fix_structure(ctx, rule='A5'):
-    fn = ctx.fn(f'{GP}.fix_des_var')
+    fn0 = ctx.fn(f'{GP}.fix_des_var')
+    # validation moved into a void private helper is seen in place (inlined view, DESIGN 2b)
+    fn = inlined_view(ctx.prog, fn0, keep=('_update_comb_fixed_mask', 'clear_func_cache'))
     cfg = build_cfg(fn)
     stores = [n for n in cfg.nodes if n.kind == 'stmt' and isinstance(n.ast, ast.Assign) and
               isinstance(n.ast.targets[0], ast.Subscript) and norm(n.ast.targets[0].value) == 'self._fixed_values']
